@@ -263,8 +263,8 @@ fn schedules(tier: Tier, st: &mut Stats, bounds: &mut serde_json::Map<String, Va
     let qa = crate::props::c19::query_alphabet();
     let q = |i: usize, id: &str| tagq(&qa[i], id);
     let scs = vec![
-        (Scenario { name: "c06_2x2_jsonl".into(), batches: vec![vec![q(0, "a0"), q(2, "a1")], vec![q(1, "b0"), q(4, "b1")]], csv: false, flush_rate: 1, keep_responses: true }, None),
-        (Scenario { name: "c06_3x1_csv".into(), batches: vec![vec![q(0, "a0")], vec![q(2, "b0")], vec![q(3, "c0")]], csv: true, flush_rate: 1, keep_responses: true }, Some(tier.pick(2, 4))),
+        (Scenario { name: "c06_2x2_jsonl".into(), batches: vec![vec![q(0, "a0"), q(2, "a1")], vec![q(1, "b0"), q(4, "b1")]], csv: false, flush_rate: 1, keep_responses: true, fresh_app: false }, None),
+        (Scenario { name: "c06_3x1_csv".into(), batches: vec![vec![q(0, "a0")], vec![q(2, "b0")], vec![q(3, "c0")]], csv: true, flush_rate: 1, keep_responses: true, fresh_app: false }, Some(tier.pick(2, 4))),
     ];
     for (sc, bound) in scs {
         let (orders, schedules) = explore_scenario(&fx, &sc, bound, tier.pick(20_000, 1_000_000), "C06", st)?;
@@ -289,10 +289,19 @@ fn schedules(tier: Tier, st: &mut Stats, bounds: &mut serde_json::Map<String, Va
     spec.cost = json!({"weights": {"distance": 0.0, "time": 0.0, "energy_electric": 1.0}, "vehicle_rates": {"distance": {"type": "raw"}, "time": {"type": "raw"}, "energy_electric": {"type": "raw"}}, "cost_aggregation": "sum", "network_rates": {}});
     let fx2 = fixture_spec(&spec)?;
     let e = |o: usize, d: usize, id: &str| tagq(&json!({"origin_vertex": o, "destination_vertex": d, "model_name": "bolt", "starting_soc_percent": 70}), id);
-    let sc = Scenario { name: "c06_2x1_shared_prediction_cache".into(), batches: vec![vec![e(0, 4, "a0")], vec![e(0, 4, "b0")]], csv: false, flush_rate: 1, keep_responses: true };
-    let bound = Some(tier.pick(2, 3));
-    let (orders, schedules) = explore_scenario(&fx2, &sc, bound, tier.pick(20_000, 1_000_000), "C06", st)?;
-    bounds.insert(sc.name.clone(), json!({"preemption_bound": bound, "schedules": schedules, "distinct_file_orders": orders}));
+    // warm: every lookup is a hit (the cache was filled by the alone runs); cold: a fresh application per execution, so that
+    // misses, the model call and the update of two workers interleave; distinct: the two workers meet the keys in different orders
+    let cache_scs = vec![
+        (Scenario { name: "c06_2x1_shared_prediction_cache".into(), batches: vec![vec![e(0, 4, "a0")], vec![e(0, 4, "b0")]], csv: false, flush_rate: 1, keep_responses: true, fresh_app: false }, tier.pick(2, 3)),
+        (Scenario { name: "c06_2x1_shared_prediction_cache_cold".into(), batches: vec![vec![e(0, 4, "a0")], vec![e(0, 4, "b0")]], csv: false, flush_rate: 1, keep_responses: true, fresh_app: true }, tier.pick(2, 3)),
+        (Scenario { name: "c06_2x1_shared_prediction_cache_cold_distinct".into(), batches: vec![vec![e(0, 4, "a0")], vec![e(3, 1, "b0")]], csv: false, flush_rate: 1, keep_responses: true, fresh_app: true }, tier.pick(2, 3)),
+    ];
+    for (sc, b) in cache_scs {
+        let bound = Some(b);
+        let t0 = std::time::Instant::now();
+        let (orders, schedules) = explore_scenario(&fx2, &sc, bound, tier.pick(20_000, 1_000_000), "C06", st)?;
+        bounds.insert(sc.name.clone(), json!({"preemption_bound": bound, "schedules": schedules, "distinct_file_orders": orders, "wall_s": t0.elapsed().as_secs_f64()}));
+    }
     Ok(())
 }
 
